@@ -1438,6 +1438,31 @@ class Exec:
             st.exc = (eobj, ti[0] if ti else '_ZTISt9exception')
             if os.environ.get('VERIF_DEBUG_THROW'): sys.stderr.write('THROW %s at %s\n' % (name, [f.fn for f in st.frames]))
             raise Throw()
+        if name == '__dynamic_cast':
+            # dynamic type from the object's vptr (Itanium ABI: typeinfo pointer one word in front of the address point, offset-to-top two words);
+            # single-inheritance chains only (the __si_class_type_info base links that exception matching also walks)
+            p = a[0]
+            if p.obj == 0: return NULL
+            vp = s.load_val(st, p, PTR(I8))
+            if not isinstance(vp, Ptr) or vp.obj not in st.objs: raise Violation('unsupported', '__dynamic_cast on an object without a modelled vtable', st)
+            ti = s.load_val(st, Ptr(vp.obj, vp.off - 8), PTR(I8)); top = s.load_val(st, Ptr(vp.obj, vp.off - 16), I64)
+            if not isinstance(ti, Ptr) or ti.obj not in st.objs or not isc(top): raise Violation('unsupported', '__dynamic_cast: vtable without typeinfo', st)
+            dyn = st.objs[ti.obj].name; want = st.objs[a[2].obj].name
+            t = dyn
+            for _ in range(8):
+                g = s.m.globals.get(t)
+                if g is not None and g['init'] is not None and g['init'].k == 'agg' and len(g['init'].elems) > 3: raise Violation('unsupported', '__dynamic_cast through multiple/virtual inheritance (%s)' % t, st)
+                if t == want: break
+                nxt = None
+                if g is not None and g['init'] is not None and g['init'].k == 'agg' and len(g['init'].elems) == 3:
+                    b = g['init'].elems[2]
+                    while b.k == 'cexpr': b = b.ops[0]
+                    if b.k == 'global': nxt = b.name
+                if nxt is None: return NULL
+                t = nxt
+            else: return NULL
+            if top >= (1 << 63): top -= 1 << 64
+            return Ptr(p.obj, p.off + top)
         if name == '__cxa_rethrow': raise Throw()
         if name == '__cxa_begin_catch': return a[0]
         if name in ('__cxa_end_catch', '__cxa_free_exception'): return 0
